@@ -17,7 +17,9 @@ from vlib import harness
 ID = "C12"
 LEVEL = "exploration"
 TECHNIQUE = ("runtime monitor: generated cmdline/environ blocks, exe/cwd link targets and (comm, argv[0]) pairs "
-             "under the real Process getters, independent decoding-rule oracle, access-log check of exe() caching")
+             "under the real Process getters, independent decoding-rule oracle, access-log check of exe() caching; live kernel: "
+             "real children (hostile argv / environment bytes, 15-char and longer names via symlinks, deleted exe and cwd, zombie) "
+             "vs the kernel's own records")
 RULE = ("one case = one simulated process: argv (0-8 args: empty, spaces, non-UTF-8, CR/LF/TAB, trailing empty arg) "
         "rendered NUL-separated, or a setproctitle block (no NUL / one trailing NUL); an environment block "
         "(duplicates, '=' in values, entries without '=', empty entry followed by garbage); exe and cwd link targets "
@@ -630,11 +632,145 @@ def run_case(case, acc):
     acc.case(case, nontrivial(case, tmp), viols)
 
 
+# ---- live kernel: real children with hostile argv / environment / names, deleted exe and cwd -----------------------
+
+def run_live(shard, acc):
+    import shutil as _sh
+    import subprocess
+    import sys
+    import time
+    ps = setup()["ps"]
+    ps.PROCFS_PATH = "/proc"
+    tmp = tempfile.mkdtemp(prefix="c12live_")
+    envbase = {k: v for k, v in os.environ.items() if k != "LD_PRELOAD"}
+    viols = []
+    kids = []
+    sleeper = "import sys, time\nprint('up', flush=True)\nwhile True: time.sleep(1000)"
+    try:
+        # interpreters reachable under names of our choosing
+        longname = os.path.join(tmp, "a-rather-long-process-name")
+        os.symlink(sys.executable, longname)
+        fifteen = os.path.join(tmp, "exactly15chars_")
+        os.symlink(sys.executable, fifteen)
+        spaced_dir = os.path.join(tmp, "dir with space")
+        os.mkdir(spaced_dir)
+        spaced = os.path.join(spaced_dir, "my prog")
+        os.symlink(sys.executable, spaced)
+        copy = os.path.join(tmp, "pycopy")
+        _sh.copy2(os.path.realpath(sys.executable), copy)
+        workdir = os.path.join(tmp, "cwd to delete")
+        os.mkdir(workdir)
+        specs = [
+            dict(tag="plain", argv=[sys.executable, "-S", "-c", sleeper, "a", "b c", "", "tail"]),
+            dict(tag="long_name", argv=[longname, "-S", "-c", sleeper]),
+            dict(tag="fifteen", argv=[fifteen, "-S", "-c", sleeper]),
+            dict(tag="spaced", argv=[spaced, "-S", "-c", sleeper, "x y", "--opt=1 2"]),
+            dict(tag="bytes", argv=[os.fsencode(sys.executable), b"-S", b"-c", sleeper.encode(), b"caf\xe9", b"cr\rlf\n", b"tab\there"],
+                 env={b"WEIRD": b"v\xff\rx", b"EMPTY": b"", b"EQ": b"a=b=c", b"NL": b"1\n2"}),
+            dict(tag="deleted_exe", argv=[copy, "-S", "-c", sleeper], unlink_exe=True),
+            dict(tag="deleted_cwd", argv=[sys.executable, "-S", "-c", sleeper], cwd=workdir, rmdir_cwd=True),
+        ]
+        for sp in specs:
+            env = dict(envbase)
+            if sp.get("env"):
+                env = {os.fsencode(k): os.fsencode(v) for k, v in envbase.items()}
+                env.update(sp["env"])
+            k = subprocess.Popen(sp["argv"], env=env, cwd=sp.get("cwd"), stdout=subprocess.PIPE, stdin=subprocess.DEVNULL)
+            kids.append(k)
+            if not k.stdout.readline():
+                acc.inconclusive = f"live child {sp['tag']} did not start"
+                return
+            if sp.get("unlink_exe"):
+                os.unlink(copy)
+            if sp.get("rmdir_cwd"):
+                os.rmdir(workdir)
+            pid = k.pid
+            # the kernel's own records, read independently
+            with open(f"/proc/{pid}/cmdline", "rb") as f:
+                raw_cmd = f.read()
+            with open(f"/proc/{pid}/environ", "rb") as f:
+                raw_env = f.read()
+            with open(f"/proc/{pid}/comm", "rb") as f:
+                comm_b = f.read().rstrip(b"\n")
+            link_exe = os.readlink(f"/proc/{pid}/exe")
+            link_cwd = os.readlink(f"/proc/{pid}/cwd")
+            want_cmd = [os.fsdecode(a) for a in raw_cmd.split(b"\0")[:-1]]
+            want_env = {}
+            for ent in raw_env.split(b"\0"):
+                if b"=" in ent:
+                    kk, vv = ent.split(b"=", 1)
+                    want_env.setdefault(os.fsdecode(kk), os.fsdecode(vv))
+            pr = ps.Process(pid)
+            acc.count("cmdline_compared")
+            got = pr.cmdline()
+            if got != want_cmd:
+                viols.append((f"live:cmdline_wrong:{sp['tag']}", f"got {got!r} want {want_cmd!r}"))
+            acc.count("environ_compared")
+            gote = pr.environ()
+            # duplicates cannot be produced through execve from Python; last-wins vs first-wins is not exercised here
+            if gote != want_env:
+                diff = {kk: (gote.get(kk), want_env.get(kk)) for kk in set(gote) | set(want_env) if gote.get(kk) != want_env.get(kk)}
+                viols.append((f"live:environ_wrong:{sp['tag']}", f"{str(diff)[:400]}"))
+            acc.count("exe_compared")
+            gx = pr.exe()
+            okx = {link_exe}
+            if link_exe.endswith(" (deleted)"):
+                okx = {link_exe, link_exe[:-10]}
+            if gx not in okx:
+                viols.append((f"live:exe_wrong:{sp['tag']}", f"got {gx!r} link {link_exe!r}"))
+            acc.count("cwd_compared")
+            gc_ = pr.cwd()
+            okc = {link_cwd}
+            if link_cwd.endswith(" (deleted)"):
+                okc = {link_cwd, link_cwd[:-10]}
+            if gc_ not in okc:
+                viols.append((f"live:cwd_wrong:{sp['tag']}", f"got {gc_!r} link {link_cwd!r}"))
+            acc.count("name_compared")
+            wname, applied = want_name(comm_b, {tuple(want_cmd)})
+            gn = pr.name()
+            if gn not in wname:
+                viols.append((f"live:name_wrong:{sp['tag']}", f"got {gn!r} want {sorted(wname)!r} comm={comm_b!r}"))
+            if applied:
+                acc.count("name_extension_applied")
+            # the other call paths
+            d = ps.Process(pid).as_dict(attrs=["cmdline", "environ", "exe", "cwd", "name"])
+            acc.count("call_path_comparisons", 5)
+            if (d["cmdline"], d["environ"], d["exe"], d["cwd"], d["name"]) != (got, gote, gx, gc_, gn):
+                viols.append((f"live:differs_via_as_dict:{sp['tag']}", str(d)[:300]))
+            acc.count("live_children_checked")
+        # zombie: cmdline raises ZombieProcess, name() still answers
+        z = kids[0]
+        os.kill(z.pid, 9)
+        time.sleep(0.2)
+        pz = ps.Process(z.pid)
+        if pz.status() == ps.STATUS_ZOMBIE:
+            try:
+                r = pz.cmdline()
+                viols.append(("live:cmdline_zombie_not_raised", f"-> {r!r}"))
+            except ps.ZombieProcess:
+                acc.count("zombie_cmdline_raised")
+            try:
+                pz.name()
+            except Exception as e:  # noqa: BLE001
+                viols.append((f"live:name_exception:{type(e).__name__}", "zombie"))
+    finally:
+        for k in kids:
+            try:
+                k.kill()
+            except Exception:  # noqa: BLE001
+                pass
+            k.wait()
+            k.stdout.close()
+        _sh.rmtree(tmp, ignore_errors=True)
+    acc.case(dict(kind="live"), True, viols)
+
+
 def plan(tier, seed):
     n = 40_000 if tier == "quick" else 3_000_000
     shards = [dict(kind="boundary")]
     for s, c in harness.split_range(n, 15 if tier == "quick" else 47):
         shards.append(dict(kind="gen", seed=seed, start=s, count=c))
+    shards.append(dict(kind="live"))
     return shards
 
 
@@ -648,7 +784,12 @@ def run_shard(shard):
     elif shard["kind"] == "gen":
         for i in range(shard["start"], shard["start"] + shard["count"]):
             run_case(gen_case(harness.rng_for(shard["seed"], "c12", i)), acc)
+    elif shard["kind"] == "live":
+        run_live(shard, acc)
     elif shard["kind"] == "cases":
         for case in shard["cases"]:
-            run_case(case, acc)
+            if case.get("kind") == "live":
+                run_live({}, acc)
+            else:
+                run_case(case, acc)
     return acc.result()
